@@ -10,10 +10,7 @@ package main
 
 import (
 	"fmt"
-	"os"
-	"path/filepath"
 	"strings"
-	"time"
 
 	a "github.com/google/wuffs/lang/ast"
 	"github.com/google/wuffs/lang/check"
@@ -438,43 +435,7 @@ func realVerdict(src string) (verdict string, msg string) {
 	return "ok", ""
 }
 
-func runEffects(r *hlib.Run, sb *hlib.StdBuild) {
-	n := 1000
-	if r.Thorough {
-		n = 12000
-	}
-	var suspicious []struct{ src, toks string }
-	seenS := map[string]bool{}
-	// hand-written corner cases first (each is one method body in a pure m0 unless noted)
-	for _, ms := range effCorners() {
-		runOneEff(r, ms, &suspicious, seenS)
-	}
-	// sequential on purpose: lang/check keeps package-level AST nodes that it
-	// annotates while checking, so concurrent Check calls would race.
-	for i := 0; i < n; i++ {
-		runOneEff(r, genEffProg(r.Rand), &suspicious, seenS)
-	}
-	r.Extra("effects_suspicious_accepted", len(suspicious))
-	// C run of accepted programs in which a pure method contains a write construct
-	maxC := 6
-	if r.Thorough {
-		maxC = 40
-	}
-	if len(suspicious) > maxC {
-		suspicious = suspicious[:maxC]
-	}
-	if len(suspicious) == 0 {
-		return
-	}
-	effCRun(r, sb, suspicious)
-}
-
-func runOneEff(r *hlib.Run, ms []eMethod, suspicious *[]struct{ src, toks string }, seen map[string]bool) {
-	v, msg := realVerdict(effWuffs(ms))
-	emitEff(r, ms, v, msg, suspicious, seen)
-}
-
-func emitEff(r *hlib.Run, ms []eMethod, v, msg string, suspicious *[]struct{ src, toks string }, seen map[string]bool) {
+func emitEff(r *hlib.Run, ms []eMethod, v, msg string, suspicious *[]suspProg, seen map[string]bool) {
 	src := effWuffs(ms)
 	toks := effTokens(ms)
 	r.Op("tcheck "+toks, v)
@@ -490,7 +451,7 @@ func emitEff(r *hlib.Run, ms []eMethod, v, msg string, suspicious *[]struct{ src
 				key := toks
 				if !seen[key] && len(*suspicious) < 200 {
 					seen[key] = true
-					*suspicious = append(*suspicious, struct{ src, toks string }{src, toks})
+					*suspicious = append(*suspicious, suspProg{src, toks})
 				}
 				_ = i
 				break
@@ -548,45 +509,6 @@ func effCorners() [][]eMethod {
 		}
 	}
 	return out
-}
-
-// effCRun compiles accepted programs and runs every method under the memcmp driver.
-func effCRun(r *hlib.Run, sb *hlib.StdBuild, progs []struct{ src, toks string }) {
-	wuffsC := filepath.Join(sb.BinDir, "wuffs-c")
-	dir, cleanup := hlib.NewScratchDir("c10eff")
-	defer cleanup()
-	for i, p := range progs {
-		pkg := fmt.Sprintf("e%d", i)
-		wf := filepath.Join(dir, pkg+".wuffs")
-		os.WriteFile(wf, []byte(p.src), 0o644)
-		csrc, stderr, err := hlib.GenPkg(wuffsC, pkg, wf)
-		if err != nil {
-			// front end accepted in-process but wuffs-c did not: report, do not hide
-			r.Fail("effects:wuffs-c-rejects-accepted", strings.TrimSpace(string(stderr)), p.src)
-			continue
-		}
-		cf := filepath.Join(dir, pkg+".c")
-		os.WriteFile(cf, []byte(strings.Replace(string(csrc), "#include \"./wuffs-base.c\"\n", "", 1)), 0o644)
-		sum, err := summarizeSrc(pkg, []byte(p.src))
-		if err != nil {
-			fatal("summarize: %v", err)
-		}
-		drv, _ := genPkgDriver(sum, sb.Snapshot, cf, r.Rand.Uint64(), 400)
-		df := filepath.Join(dir, pkg+"_driver.c")
-		os.WriteFile(df, []byte(drv), 0o644)
-		exe := filepath.Join(dir, pkg+"_driver")
-		if err := hlib.CC("gcc", "-O1", "-w", "-o", exe, df); err != nil {
-			r.Count("effects:c-compile-failed")
-			r.Note("effects C run: compile failed for an accepted program: " + firstLine(err.Error()))
-			continue
-		}
-		o, e, err := hlib.RunCmd(2*time.Minute, dir, nil, nil, exe)
-		if err != nil {
-			fatal("effects driver: %v %s", err, e)
-		}
-		reportDriver(r, string(o), "effprog.", sum, "effect program (pure methods must not write):\n"+p.src)
-		r.Count("effects:c-run")
-	}
 }
 
 func firstLine(s string) string {
